@@ -6,7 +6,7 @@
    draw i _ = i-th row of the variates (the harness regenerates both with NumPy and checks
    the oracle hypotheses on them).  Output: orientations (N*n*9) ++ volumes (N*n). *)
 From Coq Require Import ZArith List Bool Arith.
-From PV Require Import Num Model_stats.
+From PV Require Import Num Model_stats Model_stats_session.
 Import ListNotations.
 
 Section Entry.
@@ -48,5 +48,72 @@ Section Entry.
         | [] => Err OtherError
         end
     | [] => Err OtherError
+    end.
+
+  (* ---- call histories (Model_stats_session.v) ---------------------------------------------
+       ints   : memo nb_o nb_f N M nops, then per step
+                  0 a                      O_a[...] = <N*M*9 floats>
+                  1 b                      f_b[...] = <N*M floats>
+                  2 b i j                  f_b[i, j] = <1 float>
+                  3 b                      f_b *= <1 float>
+                  4 a b p_0 .. p_(M-1)     grains of O_a and f_b reordered by p
+                  5 a b has_n n has_seed seed  pi (N*M entries)     a call; <N*n_eff floats> = its variates
+       floats : initial contents of the nb_o orientation objects (N*M*9 each), of the nb_f volume
+                objects (N*M each), then the payloads of the steps in order.
+     All objects have shape (N, M, 3, 3) / (N, M).  The oracles are tables per CALL: argsort k i _ =
+     row i of the pi of the k-th call, draw k i _ = row i of its variates.
+     Output: per call  1 :: orientations ++ volumes   or   0 :: error code. *)
+  Definition err_code (e : err) : F :=
+    match e with ValueError => ofZ 1 | IndexError => ofZ 2 | TypeError => ofZ 3 | _ => ofZ 9 end.
+
+  Definition enc_result (r : res (list (list (list F)) * list (list F))) : list F :=
+    match r with
+    | Ok (oo, ff) => one :: concat (concat oo) ++ concat ff
+    | Err e => [zero; err_code e]
+    end.
+
+  Fixpoint parse_steps (fuel N M : nat) (is : list Z) (xs : list F)
+           (h : list (@sop F (list F))) (pits : list (list (list nat))) (uss : list (list (list F)))
+    : list (@sop F (list F)) * list (list (list nat)) * list (list (list F)) :=
+    match fuel with
+    | O => (rev h, rev pits, rev uss)
+    | S fuel' =>
+        match is with
+        | 0%Z :: a :: r =>
+            parse_steps fuel' N M r (skipn (N * M * 9) xs)
+                        (SFillO (znat a) (chunk M N (chunk 9 (N * M) (firstn (N * M * 9) xs))) :: h) pits uss
+        | 1%Z :: b :: r =>
+            parse_steps fuel' N M r (skipn (N * M) xs) (SFillF (znat b) (chunk M N (firstn (N * M) xs)) :: h) pits uss
+        | 2%Z :: b :: i :: j :: r =>
+            parse_steps fuel' N M r (skipn 1 xs) (SSetF (znat b) (znat i) (znat j) (nth 0 xs zero) :: h) pits uss
+        | 3%Z :: b :: r =>
+            parse_steps fuel' N M r (skipn 1 xs) (SScaleF (znat b) (nth 0 xs zero) :: h) pits uss
+        | 4%Z :: a :: b :: r =>
+            parse_steps fuel' N M (skipn M r) xs (SPermute (znat a) (znat b) (map znat (firstn M r)) :: h) pits uss
+        | 5%Z :: a :: b :: has_n :: n :: has_seed :: seed :: r =>
+            let ns := if (has_n =? 0)%Z then None else Some n in
+            let ncount := match ns with None => M | Some z => znat z end in
+            parse_steps fuel' N M (skipn (N * M) r) (skipn (N * ncount) xs)
+                        (SCall (znat a) (znat b) ns (if (has_seed =? 0)%Z then None else Some seed) :: h)
+                        (chunk M N (map znat (firstn (N * M) r)) :: pits)
+                        (chunk ncount N (firstn (N * ncount) xs) :: uss)
+        | _ => (rev h, rev pits, rev uss)
+        end
+    end.
+
+  Definition run_session (is : list Z) (xs : list F) : res (list F) :=
+    match is with
+    | memo :: nbo :: nbf :: N :: M :: nops :: r =>
+        let nbo := znat nbo in let nbf := znat nbf in let N := znat N in let M := znat M in
+        let os := map (fun blk => ([N; M; 3; 3]%nat, chunk M N (chunk 9 (N * M) blk)))
+                      (chunk (N * M * 9) nbo (firstn (nbo * (N * M * 9)) xs)) in
+        let xs1 := skipn (nbo * (N * M * 9)) xs in
+        let fs := map (fun blk => ([N; M], chunk M N blk)) (chunk (N * M) nbf (firstn (nbf * (N * M)) xs1)) in
+        let xs2 := skipn (nbf * (N * M)) xs1 in
+        let '(h, pits, uss) := parse_steps (znat nops) N M r xs2 [] [] [] in
+        Ok (flat_map enc_result
+              (run (fun k i _ => nth i (nth k pits []) []) (fun k i _ => nth i (nth k uss []) [])
+                   (negb (memo =? 0)%Z) ((os, fs), 0%nat, None) h))
+    | _ => Err OtherError
     end.
 End Entry.
